@@ -124,6 +124,7 @@ def replay(pid, ob, repo, seed, contract):
         try:
             r = fn(ob, repo, seed)
             if r is not None:
+                r.setdefault('searched', 'not possible' not in (r.get('note') or ''))
                 return r
         except Exception as e:  # replay must never mask the violation
             return dict(failing_input=None, note=f'replay harness error: {e}')
